@@ -39,13 +39,13 @@ class C20(core.Check):
             if kind == 'single':
                 toks = c01.tree_tokens(t1)
             elif kind == 'text-elem-text':
-                toks = [['T', rng.choice(['x', 'pre ', '&amp;'])]] + c01.tree_tokens(t1) + [['T', rng.choice(['y', ' post', '<!--c-->'])]]
+                toks = [['T', rng.choice(['x', 'pre ', '&amp;', ' and ', '\n lead'])]] + c01.tree_tokens(t1) + [['T', rng.choice(['y', ' post', '<!--c-->', ' tail\n', ' z '])]]
             elif kind == 'several':
                 toks = c01.tree_tokens(t1) + c01.tree_tokens(t2)
             elif kind == 'several-ws':
                 toks = c01.tree_tokens(t1) + [['T', rng.choice([' ', '\n', '  \n'])]] + c01.tree_tokens(t2)
             elif kind == 'text-only':
-                toks = [['T', rng.choice(['just text', 'a &amp; b', 'x'])]]
+                toks = [['T', rng.choice(['just text', 'a &amp; b', 'x', ' world', 'trail \n', '  both  '])]]
             else:
                 toks = [['T', rng.choice([' ', '\n '])]] + c01.tree_tokens(t1) + [['T', rng.choice([' ', '\n'])]]
             shapes[kind] = shapes.get(kind, 0) + 1
